@@ -1,8 +1,96 @@
-(* C03 - syntax diagnostics <=> text is not valid Lua (placeholder until the grammar proofs land) *)
-From Coq Require Import List NArith Bool.
-From LH Require Import Base.Bytes Base.Res Model.Lexer Model.Parser.
+(* C03 - syntax diagnostics <=> text is not valid Lua.
+   Only statements closed by `exact` + Print Assumptions live here (and vm_compute witnesses). *)
+From Coq Require Import List NArith ZArith Bool.
+From LH Require Import Base.Bytes Base.Res Model.Lexer Model.Parser Model.Number Spec.LuaNumeral
+  Proofs.NumberSpecProofs Proofs.NumberGo Proofs.NumberProofs.
 Import ListNotations.
+Local Open Scope N_scope.
 
 Theorem C03_keywords_distinct : NoDup (map fst keywords).
 Proof. repeat constructor; simpl; intuition discriminate. Qed.
 Print Assumptions C03_keywords_distinct.
+
+(* BEGIN numerals *)
+(* Numerals ("all numeral forms ... plus LuaJIT LL/ULL integer suffixes"): Model/Number.v is parser_number.go +
+   parseNumberExp as of fix 8dd49c7; Spec/LuaNumeral.v is the grammar.
+   num_clean s = no white space, no underscore, no leading sign; num_lexer_token s = what scanNumber can cut out. *)
+
+(* the executable spec used by the correspondence leg is the declarative grammar *)
+Theorem C03_number_spec_exec : forall s v, spec_value s = Some v <-> Denotes s v.
+Proof. exact spec_value_iff. Qed.
+Print Assumptions C03_number_spec_exec.
+
+(* exact classification (node kind and integer value, or "not a number"), hence no Go panic *)
+Theorem C03_number_exact :
+  forall s, num_clean s = true -> classify_number s = Ok (class_of (spec_value s)).
+Proof. exact number_classify_exact. Qed.
+Print Assumptions C03_number_exact.
+
+Theorem C03_number_ok_iff : forall s, num_clean s = true -> (number_accepted s = true <-> Numeral s).
+Proof. exact number_ok_iff. Qed.
+Print Assumptions C03_number_ok_iff.
+
+(* on every text the lexer can cut out as a number token, the parser raises "not a number" exactly when
+   the text is not a numeral of the grammar *)
+Theorem C03_number_ok_token :
+  forall s, num_lexer_token s = true -> (classify_number s <> Ok NumBad <-> Numeral s).
+Proof. exact number_ok_token. Qed.
+Print Assumptions C03_number_ok_token.
+
+Theorem C03_number_token_exact :
+  forall s, num_lexer_token s = true -> classify_number s = Ok (class_of (spec_value s)).
+Proof. exact number_token_exact. Qed.
+Print Assumptions C03_number_token_exact.
+
+(* valid code is never flagged: every numeral gets the right node *)
+Theorem C03_number_complete :
+  forall s v, num_clean s = true -> Denotes s v -> classify_number s = Ok (class_of (Some v)).
+Proof. exact number_numeral_complete. Qed.
+Print Assumptions C03_number_complete.
+
+(* FloatExp exactly for float numerals, IntegerExp v exactly for integer numerals of value v (needed by C20) *)
+Theorem C03_number_float_iff :
+  forall s, num_clean s = true -> (classify_number s = Ok NumFloat <-> FloatNumeral s).
+Proof. exact number_float_iff. Qed.
+Print Assumptions C03_number_float_iff.
+
+Theorem C03_number_int_iff :
+  forall s v, num_clean s = true -> (classify_number s = Ok (NumInt v) <-> IntegerNumeral s v).
+Proof. exact number_int_iff. Qed.
+Print Assumptions C03_number_int_iff.
+
+(* no Go panic (feeds C01) *)
+Theorem C03_number_no_fault : forall s, num_clean s = true -> exists c, classify_number s = Ok c.
+Proof. exact number_no_fault. Qed.
+Print Assumptions C03_number_no_fault.
+
+Theorem C03_number_no_fault_token : forall s, num_lexer_token s = true -> exists c, classify_number s = Ok c.
+Proof. exact number_no_fault_token. Qed.
+Print Assumptions C03_number_no_fault_token.
+
+(* parseHexFloat accepts exactly what its regular expression matches, and never panics: its own checks
+   after the regexp are dead code (leg c03.hexfloat compares both with the real regexp engine) *)
+Theorem C03_number_hexfloat_regexp : forall str, parse_hex_float str = Ok (re_hex_float str).
+Proof. exact parse_hex_float_char. Qed.
+Print Assumptions C03_number_hexfloat_regexp.
+
+(* the witnesses of the three findings repaired by 8dd49c7 (known_findings/C03.json, status fixed):
+   "x" / "+ll" panicked, "0x." was IntegerExp 0, ".0x0000000000000001ll" / "0x.0000000000000001ll" were IntegerExp 1 *)
+Example C03_number_short_junk_repaired :
+  dev_short_junk w_x = true /\ classify_number w_x = Ok NumBad /\ classify_number w_plus_ll = Ok NumBad.
+Proof. exact number_short_junk_repaired. Qed.
+Example C03_number_hex_one_junk_repaired :
+  num_lexer_token w_0x_dot = true /\ dev_hex_one_junk w_0x_dot = true /\ classify_number w_0x_dot = Ok NumBad.
+Proof. exact number_hex_one_junk_repaired. Qed.
+Example C03_number_hex_cut_repaired :
+  (num_lexer_token w_dot_0x_cut = true /\ dev_hex_cut w_dot_0x_cut = true /\ classify_number w_dot_0x_cut = Ok NumBad) /\
+  (num_lexer_token w_0x_dot_cut = true /\ dev_hex_cut w_0x_dot_cut = true /\ classify_number w_0x_dot_cut = Ok NumBad).
+Proof. exact number_hex_cut_repaired. Qed.
+
+(* non-vacuity: real numerals of every form are lexer tokens and clean *)
+Example C03_number_guard_inhabited :
+  forallb (fun s => num_lexer_token s && num_clean s) w_ok = true /\
+  map classify_number w_ok = [Ok NumFloat; Ok (NumInt (-1)); Ok NumFloat; Ok NumFloat; Ok (NumInt 10); Ok NumFloat].
+Proof. exact number_guard_inhabited. Qed.
+
+(* END numerals *)
